@@ -813,6 +813,17 @@ fn step(cx: &mut Ctx, idx: usize, op: &Op, ob: &Obs) {
         (Op::ScriptEntropy { .. }, Obs::Scripted) => {
             cx.j.fire("EntropyReplayedFromRecording");
         }
+        (Op::ConcurrentIssuers { proto, threads, builds_each, draws_each, .. }, Obs::Concurrent { builds_ok, builds_failed, distinct_nonces, distinct_tokens, draws_ok, distinct_draws }) => {
+            cx.j.trace.push(format!("concurrent_issuers:{}:{}", proto.name(), threads));
+            cx.j.fire("EntropyObserve");
+            cx.j.fire("ConcurrentCallers");
+            cx.j.nontrivial |= cx.is("C10");
+            let f = [("proto", proto.name().to_string()), ("threads", threads.to_string())];
+            cx.clause("C10", "concurrent_builds_succeed", idx, *builds_failed == 0 && *builds_ok == threads * builds_each && *draws_ok == threads * draws_each, "every build and draw of every caller thread succeeds", format!("{} ok, {} failed of {}; {} draws of {}", builds_ok, builds_failed, threads * builds_each, draws_ok, threads * draws_each), &f);
+            cx.clause("C10", "concurrent_issuers_nonces_pairwise_distinct", idx, distinct_nonces == builds_ok, "all nonce fields of all caller threads distinct under one key", format!("{} distinct among {} builds", distinct_nonces, builds_ok), &f);
+            cx.clause("C10", "concurrent_issuers_tokens_pairwise_distinct", idx, distinct_tokens == builds_ok, "all tokens of all caller threads distinct", format!("{} distinct among {} builds", distinct_tokens, builds_ok), &f);
+            cx.clause("C10", "concurrent_draws_pairwise_distinct", idx, distinct_draws == draws_ok, "all draws of all caller threads distinct", format!("{} distinct among {} draws", distinct_draws, draws_ok), &f);
+        }
         (Op::DrawKeys { n }, Obs::Draws { ok, failed, distinct, constant_positions, worst_bit_dev_centisigma }) => {
             cx.j.trace.push(format!("draw_keys:{}", n));
             cx.j.fire("EntropyObserve");
@@ -885,7 +896,9 @@ fn judge_token_structure(cx: &mut Ctx, idx: usize, text: &str, proto: Proto, foo
     cx.clause("C07", "issued_header", idx, text.starts_with(proto.header()), proto.header(), text.chars().take(12).collect(), &[]);
     // C06 occurrence clause
     if let Some(a) = assertion {
-        if proto.has_assertion() && a.len() >= 24 && a.bytes().all(|c| c.is_ascii_alphanumeric()) {
+        // (not judged when the caller put the same text into the footer: the footer is stored by design)
+        let in_footer = footer.as_deref().map_or(false, |f| f.contains(a.as_str()));
+        if proto.has_assertion() && a.len() >= 24 && a.bytes().all(|c| c.is_ascii_alphanumeric()) && !in_footer {
             let b = faults::b64(a.as_bytes());
             let mut ok = !text.contains(a.as_str()) && !text.contains(&b);
             if let Some(t) = Tok::parse(text) {
